@@ -140,3 +140,29 @@ def replay_transform_filter():
                 if not ok_size(n):
                     bad.append("%s reports a class of %d file(s)" % (" ".join(args[1:]), n))
     return dict(reproduced=bool(bad), log="\n".join(logs), what="; ".join(bad) or "every reported class satisfies the filter")
+
+
+def replay_transform_frame():
+    """C07 on the real binary: `group --transform ...` in every I/O mode must leave the scanned tree as it was."""
+    exe, msg = build_binary()
+    if not exe:
+        return dict(reproduced=None, log="could not build the real binary: " + msg)
+    logs, bad = [], []
+    modes = [["--transform", "cat"], ["--transform", "cat $IN"], ["--transform", "cat $IN", "--no-copy"],
+             ["--transform", "cp $IN $OUT"], ["--transform", "cp $IN $OUT", "--no-copy"],
+             ["--transform", "true $IN", "--in-place"], ["--transform", "true $IN", "--in-place", "--no-copy"]]
+    for k, mode in enumerate(modes):
+        d = common.mkscratch("replay-c07-%d" % k)
+        tree = os.path.join(d, "tree")
+        os.makedirs(tree)
+        for name, data in (("a", b"aaa\n"), ("b", b"bbb\n"), ("c", b"aaa\n")):
+            with open(os.path.join(tree, name), "wb") as f:
+                f.write(data)
+        before = inventory(tree)
+        p = subprocess.run([exe, "group", tree] + mode, cwd=d, stdout=subprocess.PIPE, stderr=subprocess.STDOUT, text=True, timeout=120)
+        after = inventory(tree)
+        same = before == after
+        logs.append("group tree %s -> rc=%s tree %s" % (" ".join(repr(m) for m in mode), p.returncode, "unchanged" if same else "CHANGED: before=%s after=%s" % (before, after)))
+        if not same:
+            bad.append("group %s changed the scanned tree (%d of %d files left)" % (" ".join(mode), len(after), len(before)))
+    return dict(reproduced=bool(bad), log="\n".join(logs), what="; ".join(bad) or "the scanned tree is unchanged in every transform mode")
